@@ -9,6 +9,7 @@ Case lines (shared with harness/c04/c04.c):
   mset set_handler_catches <0|1>              the master's error_handler completes a catch()
   reconf MaxEvaluationCost <v>                the budget as read by init_config () (clamped)
   ev sizes set_limit <n>                      the budget as set by LPC set_eval_limit (n) (clamped)
+  ev sizes mapseq <op>,<op>,...               inserts and in-place `m += m2` on one mapping, each inside catch (MapBook.lean)
   shape <term>                                the abstract shape of the LPC program loaded as `p` (ignored by the harness)
   ev p main                                   one driver-started evaluation of the program
   sz <constructor> <args...>                  one size decision
@@ -19,6 +20,7 @@ shape terms:  K | W<n> | S | R<locals> | X | F<locals>(<t>) | C(<t>) | B<k>(<t>)
 import NV.Common.Proto
 import NV.C04.Model
 import NV.C04.Sizes
+import NV.C04.MapBook
 import NV.C04.Spec
 
 namespace NV.C04
@@ -191,6 +193,8 @@ def szCmd (l : Limits) (ctor : String) (a : List Int) : Option SzR :=
     some (andThen (allocateArray n l.maxArray) fun a => andThen (allocateArray k l.maxArray) fun b => partOf a (a - b))
   | "array_and", [n, k] =>
     some (andThen (allocateArray n l.maxArray) fun a => andThen (allocateArray k l.maxArray) fun b => partOf a b)
+  | "filter_mapping", [n, kept] => some (andThen (mapInsertMany 0 n.toNat l.maxMapping) fun c => partOf c kept.toNat)
+  | "map_mapping", [n] => some (andThen (mapInsertMany 0 n.toNat l.maxMapping) sameSize)
   | "keys", [n] => some (andThen (mapInsertMany 0 n.toNat l.maxMapping) fun c => mapKeys c l.maxArray)
   | "values", [n] => some (andThen (mapInsertMany 0 n.toNat l.maxMapping) fun c => mapKeys c l.maxArray)
   | "allocate_mapping", [n] => some (allocateMapping n)
@@ -203,6 +207,21 @@ def szCmd (l : Limits) (ctor : String) (a : List Int) : Option SzR :=
   | "sprintf", [x, y] =>
     some (andThen (str x) fun p => andThen (str y) fun q => andThen (sprintfAdd 0 p) fun real => andThen (sprintfAdd real q) fun r => sprintfFinish r l.maxString)
   | _, _ => none
+
+/-- `i<key><n|o>` / `a<from>:<n>:<new>` -/
+def parseMapOp (t : String) : Option MapOp :=
+  if t.startsWith "i" then
+    if t.endsWith "n" then some (.insert true) else if t.endsWith "o" then some (.insert false) else none
+  else if t.startsWith "a" then
+    match (t.drop 1).toString.splitOn ":" with
+    | [_, _, k] => k.toNat?.map MapOp.absorb
+    | _ => none
+  else none
+
+/-- the result string of sizes.c `mapseq` -/
+def mapSeqResult (limit : Int) (ops : List MapOp) : String :=
+  let (es, s) := mapRun limit ops { count := 0, nodes := 0 }
+  String.mk (es.map fun e => if e then 'e' else 'k') ++ s!":{s.count}/{s.nodes}"
 
 def setCfgInt (l : Limits) (idx : Nat) (v : Int) : Limits :=
   if idx = cfgEvalCost then { l with cost := v }
@@ -248,6 +267,11 @@ def parseLine (mode : Bool) (p : Parsed) (line : String) : Parsed :=
     match v.toInt? with
     | some v => { p with lim := { p.lim with cost := clampCost v } }
     | none => { p with bad := line :: p.bad }
+  | ["ev", "sizes", "mapseq", ops] =>
+    let parsed := (ops.splitOn ",").map parseMapOp
+    if parsed.all Option.isSome then
+      { p with out := if mode then ("r ret \"" ++ mapSeqResult p.lim.maxMapping (parsed.filterMap id) ++ "\"") :: p.out else p.out }
+    else { p with bad := line :: p.bad }
   | ["ev", "sizes", "set_limit", v] =>
     -- set_eval_limit (n), n other than 0 / 1 / -1: MaxEvaluationCost = (int) n, clamped to at least 1; the LPC
     -- function returns the new budget
@@ -293,10 +317,27 @@ def runJudge (body : List String) : List String :=
   | [] => ["ok"]
   | vs => vs.map (fun v => s!"bad {v}")
 
+/-- names of the machine branches recorded by `mark` (Model.lean) -/
+def branchNames : List (Nat × String) :=
+  [(1, "tick-expires"), (2, "frame-push-at-full-depth"), (3, "checked-push-at-full-stack"), (4, "catch-at-full-depth"),
+   (5, "catch-reraises-cost"), (6, "catch-reraises-stack-or-depth"), (7, "catch-returns-error-value"),
+   (8, "safe-apply-at-full-depth"), (9, "safe-apply-stops-cost-error"), (10, "safe-apply-stops-other-error"),
+   (11, "throw-to-catch"), (12, "throw-without-catch"), (13, "catch-without-error"), (14, "safe-apply-without-error")]
+
+/-- `cover` mode: the branches of the machine each case takes (generator audit; not part of the check's verdict) -/
+def runCover (lines : List String) : List String :=
+  let p := lines.foldl (parseLine false) {}
+  if (lines.any fun l => (toks l).take 3 == ["ev", "p", "main"]) then
+    let (_, s) := evaluate (cfgOf p.lim) modelFuel p.shape
+    let ids := s.br.eraseDups
+    ids.map fun i => "br " ++ ((branchNames.find? (·.1 == i)).map (·.2)).getD (toString i)
+  else []
+
 def main (mode : String) : IO Unit :=
   match mode with
   | "model" => serve runModel
   | "judge" => serve runJudge
+  | "cover" => serve runCover
   | _ => IO.eprintln s!"C04: unknown mode {mode}"
 
 end NV.C04
